@@ -14,14 +14,18 @@ def hx2(a):
     return [[float(v).hex() for v in row] for row in np.asarray(a, dtype=float)]
 
 
-def _det(kind, shape, **char):
+def _det(kind, shape, pixel_vert_size=10.0, pixel_horz_size=10.0, **char):
     from harness import pyx
 
-    d = pyx.make_detector(kind=kind, rows=shape[0], cols=shape[1], **char)
+    d = pyx.make_detector(kind=kind, rows=shape[0], cols=shape[1], pixel_vert_size=pixel_vert_size,
+                          pixel_horz_size=pixel_horz_size, **char)
     from pyxel.detectors import ReadoutProperties
 
     d._readout_properties = ReadoutProperties(times=[1.0])   # as the model tests do: gives detector.time_step
     return d
+
+
+_SEQ = [0]
 
 
 def h_collect(p):
@@ -36,11 +40,51 @@ def h_collect(p):
     return {"out": hx(det.pixel.array)}
 
 
+def h_collectp(p):
+    """The generated charge is put into the Charge container as arrays (add_charge_array) and / or particles
+    (add_charge), in the given order, as the charge-generation models do; nothing reads `charge.array` before
+    simple_collection runs."""
+    from pyxel.models.charge_collection import simple_collection
+
+    px = np.array(p["pixel"], dtype=float)
+    det = _det(p.get("det", "ccd"), px.shape, pixel_vert_size=p["sv"], pixel_horz_size=p["sh"])
+    det.pixel.array = px.copy()
+    for op in p["ops"]:
+        if op["op"] == "array":
+            det.charge.add_charge_array(np.array(op["a"], dtype=float).reshape(px.shape))
+        else:
+            ps = op["ps"]
+            n = len(ps)
+            det.charge.add_charge(
+                particle_type="e", particles_per_cluster=np.array([q[2] for q in ps], dtype=float),
+                init_energy=np.zeros(n), init_ver_position=np.array([q[0] for q in ps], dtype=float),
+                init_hor_position=np.array([q[1] for q in ps], dtype=float), init_z_position=np.zeros(n),
+                init_ver_velocity=np.zeros(n), init_hor_velocity=np.zeros(n), init_z_velocity=np.zeros(n))
+    simple_collection(det)
+    return {"out": hx(det.pixel.array)}
+
+
 def h_qe(p):
-    from pyxel.models.charge_generation.photoelectrons import apply_qe, simple_conversion
+    from pyxel.models.charge_generation.photoelectrons import apply_qe, conversion_with_qe_map, simple_conversion
 
     ph = np.array(p["photon"], dtype=float)
-    q, samp = p["q"], p["sampling"]
+    samp = p["sampling"]
+    if p["path"] == "map":
+        # one efficiency per pixel, through a file with a fresh name (the loader memoises by file name)
+        _SEQ[0] += 1
+        fname = f"qemap_{_SEQ[0]}.npy"
+        np.save(fname, np.array(p["qs"], dtype=float).reshape(ph.shape))
+        det = _det(p.get("det", "ccd"), ph.shape)
+        det.photon.array = ph.copy()
+        conversion_with_qe_map(det, filename=fname, seed=p.get("seed", 0), binomial_sampling=samp)
+        return {"out": hx(det.charge.array)}
+    if p["path"] == "select":
+        # simple_conversion with the efficiency given as model argument, by the characteristics, or both
+        det = _det(p.get("det", "ccd"), ph.shape, quantum_efficiency=p["char"])
+        det.photon.array = ph.copy()
+        simple_conversion(det, quantum_efficiency=p["arg"], seed=p.get("seed", 0), binomial_sampling=samp)
+        return {"out": hx(det.charge.array)}
+    q = p["q"]
     if p["path"] == "func":
         np.random.seed(p.get("seed", 0))
         out = apply_qe(array=ph.copy(), qe=q, binomial_sampling=samp)
@@ -56,6 +100,14 @@ def h_fullwell(p):
     from pyxel.models.charge_collection.full_well import apply_simple_full_well_capacity, simple_full_well
 
     x = np.array(p["x"], dtype=float)
+    if p["path"] == "sources":
+        # both capacity sources: detector characteristics (None = not defined) and model argument (None = absent)
+        det = _det(p.get("det", "ccd"), x.shape, full_well_capacity=p["char"])
+        det.pixel.array = x.copy()
+        simple_full_well(det, fwc=p["arg"])
+        o1 = det.pixel.array.copy()
+        simple_full_well(det, fwc=p["arg"])
+        return {"o1": hx(o1), "o2": hx(det.pixel.array.copy())}
     c = p["c"]
     if p["path"] == "func":
         o1 = apply_simple_full_well_capacity(array=x.copy(), fwc=c).copy()
@@ -103,9 +155,6 @@ def h_ipc(p):
     if out.shape != fr.shape:
         return {"raise": f"shape:{out.shape}"}
     return {"out": hx2(out)}
-
-
-_SEQ = [0]
 
 
 def h_persist(p):
@@ -165,6 +214,49 @@ def h_persist(p):
     return {"steps": steps_out}
 
 
+def _cdm_tables(lin, p, vth, tr, nt, sg):
+    """The factors the CDM loop evaluates at every (packet, species) of every line - a ** (beta - 1) and the capture
+    probability - computed with the float expressions of the source along the trajectory of the source's
+    bookkeeping; (0, 0) where the packet is below the 0.01 e- cut (the factors are not used there).  They drive
+    the exact-arithmetic Coq model for ANY beta; the comparison of that model's output with the real output is
+    what ties the two (a wrong trajectory here gives a mismatch, never an agreement)."""
+    beta, vg, t, fwc = p["beta"], p["vg"], p["t"], p["fwc"]
+    fwcb = fwc ** beta
+    alpha = t * sg * vth * fwcb / (2.0 * vg)
+    g = 2.0 * nt * vg / fwcb
+    rel = 1.0 - np.exp(-t / tr)
+    nk = len(nt)
+    tbls = []
+    for line in lin:
+        no = np.zeros(nk)
+        tbl = []
+        for i, a in enumerate(line):
+            a = float(a)
+            gamma = g * (p.get("ninj", 0) if p.get("inj") else i)
+            row = []
+            for k in range(nk):
+                nc = 0.0
+                if a > 0.01:
+                    bw = a ** (beta - 1.0)
+                    pc = 1.0 - np.exp(-1 * alpha[k] * a ** (1.0 - beta))
+                    row.append([float(bw).hex(), float(pc).hex()])
+                    nc = max((gamma[k] * a ** beta - no[k]) / (gamma[k] * bw + 1.0) * pc, 0.0)
+                    no[k] += nc
+                else:
+                    row.append([0.0.hex(), 0.0.hex()])
+                nr = no[k] * rel[k]
+                a += -1 * nc + nr
+                no[k] -= nr
+                if a < 0.01:
+                    a = 0.0
+            tbl.append(row)
+        tbls.append(tbl)
+    vals = [float.fromhex(v) for tbl in tbls for row in tbl for f in row for v in f] + list(g) + list(rel)
+    if not all(np.isfinite(vals)):
+        return None
+    return {"tbls": tbls, "gs": hx(g), "rs": hx(rel)}
+
+
 def h_cdm(p):
     """Lines are returned in transfer order: columns for the parallel direction, rows for the serial one."""
     from pyxel.models.charge_transfer.cdm import cdm, run_cdm_parallel, run_cdm_serial
@@ -172,6 +264,7 @@ def h_cdm(p):
     arr = np.array(p["frame"], dtype=float)
     par = p["direction"] == "parallel"
     tr, nt, sg = (np.array(p[k], dtype=float) for k in ("tr", "nt", "sigma"))
+    vth = p["vth"]
     if p["path"] == "func":
         kw = dict(array=arr.copy(), vg=p["vg"], t=p["t"], fwc=p["fwc"], vth=p["vth"], beta=p["beta"], tr=tr, nt=nt,
                   sigma=sg)
@@ -180,8 +273,14 @@ def h_cdm(p):
         else:
             out = run_cdm_serial(**kw)
     else:
+        import astropy.constants as const
+
         det = _det("ccd", arr.shape)
         det.pixel.array = arr.copy()
+        # the thermal velocity the wrapper computes (its default effective mass)
+        vth = float(100.0 * np.sqrt(3 * const.k_B.value * det.environment.temperature / (0.5 * const.m_e.value)))
+        if p.get("inj"):
+            p = dict(p, ninj=arr.shape[0])
         for _ in range(p.get("times", 1)):
             cdm(det, direction=p["direction"], beta=p["beta"], trap_release_times=list(p["tr"]),
                 trap_densities=list(p["nt"]), sigma=list(p["sigma"]), full_well_capacity=p["fwc"],
@@ -194,6 +293,12 @@ def h_cdm(p):
         return {"nonfinite": int(np.sum(~np.isfinite(out))), "n": int(out.size)}
     lin, lout = (arr.T, out.T) if par else (arr, out)
     res = {"lines_in": hx2(lin), "lines_out": hx2(lout)}
+    # (chains longer than 16 capture/release steps per line are too slow in exact arithmetic: specification only)
+    if not p.get("exact") and p.get("times", 1) == 1 and "corner" not in p and lin.shape[1] * len(nt) <= 16:
+        with np.errstate(all="ignore"):
+            tb = _cdm_tables(lin, p, vth, tr, nt, sg)
+        if tb is not None:
+            res.update(tb)
     if p.get("exact"):
         # beta = 1: the factors the code computes, evaluated here with the same float expressions
         with np.errstate(all="ignore"):
@@ -206,7 +311,7 @@ def h_cdm(p):
     return res
 
 
-HANDLERS = dict(collect=h_collect, qe=h_qe, fullwell=h_fullwell, kernel=h_kernel, ipc=h_ipc, persist=h_persist,
+HANDLERS = dict(collect=h_collect, collectp=h_collectp, qe=h_qe, fullwell=h_fullwell, kernel=h_kernel, ipc=h_ipc, persist=h_persist,
                 cdm=h_cdm)
 
 
